@@ -130,7 +130,8 @@ End Check.
    edges, face map (sorted by surface id), edge map (sorted by volume edge id), and the same maps read the other way *)
 Record bobs := {
   b_vs : list nat;
-  b_m2b_v : list (nat * nat);     (* (v, i) sorted by i *)
+  b_m2b_v : list (nat * nat);     (* m2b_vertex items sorted by surface id *)
+  b_b2m_v : list (nat * nat);     (* b2m_vertex items sorted by surface id *)
   b_faces : list (list nat);
   b_edges : list (list nat);
   b_m2b_f : list (nat * nat);     (* (iF, i) sorted by i *)
@@ -148,25 +149,28 @@ Definition check_bc (cells faces edges : list (list nat)) (pos : nat -> vec) (T 
   let vs := b_vs o in
   let n := length bf in
   seteq vs (border_vertex_set faces bf)
-  && pairs_eqb (b_m2b_v o) (combine vs (seq 0 (length vs)))
+  && pairs_eqb (b_m2b_v o) (dict_enum bc_m2b_vertex_entry vs)
+  && pairs_eqb (b_b2m_v o) (dict_enum bc_b2m_vertex_entry vs)
   && res_lleqb (bc_faces cells faces pos (t_f2c T) vs bf) (b_faces o)
   && lleqb (b_edges o) (complete_edges [] (b_faces o))
-  && pairs_eqb (b_m2b_f o) (combine bf (seq 0 n))
-  && pairs_eqb (b_b2m_f o) (combine (seq 0 n) bf)
+  && pairs_eqb (b_m2b_f o) (dict_enum bc_m2b_face_entry bf)
+  && pairs_eqb (b_b2m_f o) (dict_enum bc_b2m_face_entry bf)
   && match bc_edge_map edges (b_edges o) vs (boundary_edges faces edges bf) with
      | Ok m => pairs_eqb (b_m2b_e o) m && pairs_eqb (b_b2m_e o) (map swap m)
      | _ => false
      end.
 
 (* standalone extractor: vs (= map_b2m as a list), map_m2b sorted by surface id, faces, edges after prepare *)
-Record xobs := { x_vs : list nat; x_m2b : list (nat * nat); x_faces : list (list nat); x_edges : list (list nat) }.
+Record xobs := { x_vs : list nat; x_m2b : list (nat * nat); x_b2m : list (nat * nat);
+                 x_faces : list (list nat); x_edges : list (list nat) }.
 
-Definition check_ex (faces : list (list nat)) (T : tabs) (o : xobs) : bool :=
+Definition check_ex (cells faces : list (list nat)) (pos : nat -> vec) (T : tabs) (o : xobs) : bool :=
   let bf := t_bf T in
   let vs := x_vs o in
   seteq vs (border_vertex_set faces bf)
-  && pairs_eqb (x_m2b o) (combine vs (seq 0 (length vs)))
-  && res_lleqb (ex_faces faces vs bf) (x_faces o)
+  && pairs_eqb (x_m2b o) (dict_enum ex_m2b_entry vs)
+  && pairs_eqb (x_b2m o) (dict_enum ex_b2m_entry vs)
+  && res_lleqb (ex_faces cells faces pos (t_f2c T) vs bf) (x_faces o)
   && lleqb (x_edges o) (complete_edges [] (x_faces o)).
 
 Record case := {
@@ -174,6 +178,8 @@ Record case := {
   k_cells : list (list nat);
   k_pos : list vec;
   k_sorted : bool;
+  k_faces0 : list (list nat);    (* faces / edges declared before construction *)
+  k_edges0 : list (list nat);
   k_faces : list (list nat);
   k_edges : list (list nat);
   k_queries : list (query * ans);
@@ -185,12 +191,12 @@ Definition pos_of (l : list vec) (v : nat) : vec := nth v l (0%Z, 0%Z, 0%Z).
 
 Definition check_case (k : case) : bool :=
   let cells := k_cells k in
-  let faces := complete_faces [] cells in
-  let edges := complete_edges [] faces in
+  let faces := complete_faces (k_faces0 k) cells in
+  let edges := complete_edges (k_edges0 k) faces in
   lleqb (k_faces k) faces && lleqb (k_edges k) edges &&
   (let T := build cells faces edges in
    let raises := k_sorted k && edge_sort_raises cells faces edges T in
    t_ok T
    && forallb (fun qa => check_query (k_nv k) cells faces edges (k_sorted k) T raises (fst qa) (snd qa)) (k_queries k)
    && match k_bc k with Some o => check_bc cells faces edges (pos_of (k_pos k)) T o | None => true end
-   && match k_ex k with Some o => check_ex faces T o | None => true end).
+   && match k_ex k with Some o => check_ex cells faces (pos_of (k_pos k)) T o | None => true end).
